@@ -24,6 +24,12 @@ import JsonV.Spec.Tree
 import JsonV.Model.Unmarshal
 import JsonV.Lemmas.MergeClauses
 import JsonV.Lemmas.MergeDup
+import JsonV.Lemmas.DupGrammar
+import JsonV.Lemmas.GlueNameKey
+import JsonV.Props.C01
+import JsonV.Props.C02
+import JsonV.Props.C03
+import JsonV.Props.C04L3
 
 namespace JsonV.Props.C08
 open JsonV JsonV.Model JsonV.Lemmas.Dup
@@ -243,14 +249,12 @@ theorem dupFree_obj_namespace (ms : List (Bytes × JTree)) :
       ∀ n x, (n, x) ∈ ms → x.dupFree = true := by
   rw [JsonV.Lemmas.Merge.dupFree_obj, object_accept_iff_nodup]
 
-/-! ### Full statements that remain unproved (validated by harness/c08.go on the implementation)
+/-! ### What the L3 theorems above do not cover
 
-What `unm_no_dups` above does NOT cover, and why:
-  * names that differ as strings but resolve to the same destination (case-insensitive struct fields,
-    `"0"`/`"-0"` and `"1"`/`"1.0"` map keys, embedded fallbacks, raw `jsontext.Value` targets) are outside the
-    model's type universe (exact-name fields, string keys);
-  * the step from JSON text to `JTree` (unescaping, UTF-8 validation) belongs to the tokenizer slices.
-The text-level statements quantify over the real `Unmarshal`/`Marshal` as parameters. -/
+Names that differ as strings but resolve to the same destination (case-insensitive struct fields, `"0"`/`"-0"` and
+`"1"`/`"1.0"` map keys, embedded fallbacks, raw `jsontext.Value` targets) are outside the model's type universe
+(exact-name fields, string keys); they are the `…_full` definitions at the end of the file, validated by the harness.
+The step from JSON text to names (unescaping) is `valid_iff_unquoted_names` below. -/
 
 /-! ### AllowDuplicateNames over the L3 model (`UOpts.allowDup`, added to Model/Unmarshal.lean by slice C14) -/
 
@@ -272,6 +276,129 @@ theorem later_wins (o : UOpts) (ho : o.allowDup = true) (T : GoType) (ms : List 
 
 end AllowDup
 
+/-! ### Text level: names are compared after unescaping; AllowInvalidUTF8 only adds ill-formed literals; Marshal
+
+These use the neighbours' results: slice C01 `valid_iff` (the validator — and by `token_value` the token path —
+accepts exactly the grammar `JText`, names unique under the validator's name key), slice C11 / Lemmas/GlueNameKey
+(`unescapedName_valueString`: that key IS the unquoted name; `nameKey_appendQuote`: the key of a quoted Go string is the
+string with one U+FFFD per ill-formed byte), slice C02 `l3_marshal_valid` and slice C04 `mar_dupFree`. -/
+
+section Text
+open JsonV.Spec.Grammar JsonV.Model.Validate JsonV.Lemmas.DupGrammar
+
+/-- The unquoted (unescaped) text of a string literal: `jsonwire.AppendUnquote` (C01's model; equal to slice C11's
+`appendUnquote` by `GlueQuote.unquote_eq`). -/
+def unq (q : Bytes) : Bytes := (JsonV.Model.Wire.unquote q).1
+
+/-- **Text → names step.**  In both UTF-8 modes and under both duplicate policies, `Value.IsValid` accepts exactly
+the texts of the RFC 8259 grammar whose member names — unless AllowDuplicateNames — are pairwise different AFTER
+UNESCAPING in every object at every depth: `"a"`, `"\u0061"` and `"\u0061"` spelled with other hex case are one name. -/
+theorem valid_iff_unquoted_names (o : VOpts) (b : Bytes) :
+    isValid o b = true ↔ JText (JsonV.Props.C01.gopts o) maxNestingDepth unq b := by
+  rw [JsonV.Props.C01.valid_iff]
+  have key : ∀ q, JString (!o.allowInvalidUTF8) q → JsonV.Props.C01.nameKey o q = unq q :=
+    fun q h => JsonV.Lemmas.GlueNameKey.unescapedName_valueString o q h
+  constructor
+  · intro h; exact jtext_transfer _ _ _ _ _ rfl b h (fun q _ hq => ⟨hq, key q hq⟩)
+  · intro h; exact jtext_transfer _ _ _ _ _ rfl b h (fun q _ hq => ⟨hq, (key q hq).symm⟩)
+
+/-- `{"a":1,"\u0061":2}` : the two spellings unquote to the same name, the text is rejected by default and accepted
+with AllowDuplicateNames. -/
+def escDupText : Bytes :=
+  [0x7B, 0x22, 0x61, 0x22, 0x3A, 0x31, 0x2C, 0x22, 0x5C, 0x75, 0x30, 0x30, 0x36, 0x31, 0x22, 0x3A, 0x32, 0x7D]
+example : unq [0x22, 0x61, 0x22] = unq [0x22, 0x5C, 0x75, 0x30, 0x30, 0x36, 0x31, 0x22] := by decide +kernel
+example : isValid {} escDupText = false := by decide +kernel
+example : isValid { allowDup := true } escDupText = true := by decide +kernel
+/-- … and its tree (slice C03's `parseTree`, names unescaped) repeats the name `a`, so by C03 `dup_rejected`
+unmarshaling it into `any` fails under the default options. -/
+example : JsonV.Spec.Meaning.parseTree escDupText = some (.obj [([0x61], .num [0x31]), ([0x61], .num [0x32])]) := by rfl
+
+/-- the validator options with / without AllowInvalidUTF8 (same duplicate policy `d`) -/
+def strictOpts (d : Bool) : VOpts := { allowInvalidUTF8 := false, allowDup := d }
+def lenientOpts (d : Bool) : VOpts := { allowInvalidUTF8 := true, allowDup := d }
+
+/-- AllowInvalidUTF8 rejects nothing the default accepts (and compares names the same way). -/
+theorem utf8_strict_imp_lenient (d : Bool) (b : Bytes) (h : isValid (strictOpts d) b = true) :
+    isValid (lenientOpts d) b = true := by
+  rw [valid_iff_unquoted_names] at h ⊢
+  exact jtext_transfer (JsonV.Props.C01.gopts (strictOpts d)) (JsonV.Props.C01.gopts (lenientOpts d)) _ unq unq rfl b h
+    (fun q _ hq => ⟨JString_mono hq, rfl⟩)
+
+/-- If every string literal occurring in the text is well-formed, the two modes give the same verdict. -/
+theorem utf8_same_without_illformed (d : Bool) (b : Bytes)
+    (hall : ∀ q, q <:+: b → JString false q → JString true q) :
+    isValid (lenientOpts d) b = isValid (strictOpts d) b := by
+  cases hs : isValid (strictOpts d) b with
+  | true => exact utf8_strict_imp_lenient d b hs
+  | false =>
+    cases hl : isValid (lenientOpts d) b with
+    | false => rfl
+    | true =>
+      rw [valid_iff_unquoted_names] at hl
+      have : isValid (strictOpts d) b = true := by
+        rw [valid_iff_unquoted_names]
+        exact jtext_transfer (JsonV.Props.C01.gopts (lenientOpts d)) (JsonV.Props.C01.gopts (strictOpts d)) _ unq unq rfl b hl
+          (fun q hq hj => ⟨hall q hq hj, rfl⟩)
+      rw [this] at hs; cases hs
+
+/-- **The ONLY difference made by AllowInvalidUTF8 at the syntax level**: a text accepted with the option and rejected
+without it contains (as a contiguous piece) a string literal of the lenient grammar that is not a literal of the strict
+grammar, i.e. one holding ill-formed UTF-8 or an unpaired surrogate escape.  (What such a literal DECODES to — one U+FFFD
+per ill-formed byte — is slice C11's `unquote_fffd_count_mixed`.) -/
+theorem utf8_only_diff (d : Bool) (b : Bytes) (hl : isValid (lenientOpts d) b = true)
+    (hs : isValid (strictOpts d) b = false) : ∃ q, q <:+: b ∧ JString false q ∧ ¬ JString true q := by
+  apply Classical.byContradiction
+  intro hno
+  have hall : ∀ q, q <:+: b → JString false q → JString true q := by
+    intro q hq hj
+    apply Classical.byContradiction
+    intro hn
+    exact hno ⟨q, hq, hj, hn⟩
+  rw [utf8_same_without_illformed d b hall, hs] at hl
+  cases hl
+
+-- `"` FF `"` : accepted only with the option
+example : isValid (lenientOpts false) [0x22, 0xFF, 0x22] = true ∧ isValid (strictOpts false) [0x22, 0xFF, 0x22] = false := by
+  decide +kernel
+
+end Text
+
+section MarshalText
+open JsonV.Spec JsonV.Spec.Grammar JsonV.Model.Validate JsonV.Lemmas.EncInvL3 JsonV.Lemmas.EncInvInst JsonV.Model.Quote
+
+/-- **Marshal never emits duplicate names (default options), L3 model end to end.**  For every well-formed type of the
+modelled universe and every well-typed value, the tree written by `mar` has no object repeating a name, and the BYTES
+(rendered with the modelled AppendQuote under any escaping flags) are one text of the strict grammar — well-formed UTF-8,
+paired surrogates — whose member names are pairwise different after unescaping in every object at every depth.
+Map keys that are not valid UTF-8 cannot collide here because under the default options they are a marshal error
+(`hasType` excludes them; Model/Marshal.lean `MErr.invalidUTF8`, arshal_default.go:213-256); the collision of keys that
+become equal only after U+FFFD replacement (AllowInvalidUTF8) is `lossy_collision_rejected` below.
+The tie between `mar` and the reflection code is slices C04/C14's correspondence. -/
+theorem marshal_no_dups (f : QFlags) (mo : MOpts) (T : GoType) (v : GoVal) (j : JTree)
+    (hwf : T.wf = true) (hn : namesUtf8 T = true) (ht : hasType T v = true) (hf : floatsOK v = true)
+    (h : mar mo T v = .ok j) (hd : (toOut j).depth ≤ maxNestingDepth) :
+    j.dupFree = true ∧ JText ⟨true, false⟩ maxNestingDepth unq ((toOut j).render (realQuote f)) := by
+  refine ⟨JsonV.Props.C04L3.mar_dupFree mo T hwf v j ht h, ?_⟩
+  have hv := (JsonV.Props.C02.l3_marshal_valid {} f mo T v j hwf hn ht hf h hd).2
+  exact (valid_iff_unquoted_names {} _).1 hv
+
+/-- **Keys that collide only after U+FFFD replacement.**  With AllowInvalidUTF8 two different Go strings whose ill-formed
+bytes are replaced alike (`"\xff"`, `"\xfe"`) are written as names with the same key, whatever the escaping flags; for
+string-keyed maps the marshaler therefore leaves the coder namespace enabled (arshal_default.go:1085-1100
+`mapKeyWithUniqueRepresentation`, arshal_any.go:138) and the namespace refuses the second name: no duplicate is emitted,
+Marshal reports ErrDuplicateName. -/
+theorem lossy_collision_rejected (o : VOpts) (f : QFlags) (s1 s2 : Bytes)
+    (h : JsonV.Spec.StringSpec.lossy s1 = JsonV.Spec.StringSpec.lossy s2) :
+    ((Namespace.empty.insert (JsonV.Lemmas.WireValue.nameKey o (appendQuote f s1).1)).1.insert
+      (JsonV.Lemmas.WireValue.nameKey o (appendQuote f s2).1)).2 = false := by
+  rw [JsonV.Lemmas.GlueNameKey.nameKey_appendQuote, JsonV.Lemmas.GlueNameKey.nameKey_appendQuote, h]
+  rw [insert_iff _ (ns_wf_insert _ wf_empty _), insert_names _ wf_empty]
+  simp [Namespace.empty]
+
+example : JsonV.Spec.StringSpec.lossy [0xFF] = JsonV.Spec.StringSpec.lossy [0xFE] := by decide +kernel
+
+end MarshalText
+
 section Full
 variable {T V G : Type}
 variable (unmText : (allowDup allowBadUTF8 : Bool) → T → Bytes → Option V)
@@ -279,16 +406,21 @@ variable (mar : (allowDup allowBadUTF8 : Bool) → G → Option Bytes)
 variable (semDupFree : T → Bytes → Prop) (utf8OK noDupNames : Bytes → Prop)
 variable (sanitize : Bytes → Bytes)
 
-/-- Default options, text level, every target kind: whatever is accepted had no two names that are equal after
-unescaping OR resolve to the same Go struct field / map key, and was well-formed UTF-8. -/
+/-- Default options, text level, every target kind: whatever is accepted had no two names that resolve to the same Go
+struct field / map key although they differ after unescaping (case-insensitive fields, `0`/`-0`, `1`/`1.0`, embedded
+fallbacks), and was well-formed UTF-8.  (Names equal after unescaping: proved, `valid_iff_unquoted_names` + `unm_no_dups`.) -/
 def unm_no_semantic_dups_full : Prop :=
   ∀ t b v, unmText false false t b = some v → semDupFree t b ∧ utf8OK b
 
-/-- Marshal never emits an object with duplicate names, nor ill-formed UTF-8, under default options. -/
+/-- Marshal of EVERY Go value (beyond the L3 universe: non-string keys, TextMarshaler keys, embedded fallbacks, user
+MarshalJSON / MarshalJSONTo, raw values) never emits duplicate names nor ill-formed UTF-8 under default options.
+(L3 universe: proved, `marshal_no_dups`.) -/
 def marshal_no_dups_full : Prop :=
   ∀ g out, mar false false g = some out → noDupNames out ∧ utf8OK out
 
-/-- AllowInvalidUTF8 differs from the default only by one U+FFFD per ill-formed byte and the missing error. -/
+/-- AllowInvalidUTF8 at the VALUE level: unmarshaling with the option equals unmarshaling the sanitized text (one U+FFFD
+per ill-formed byte) without it.  (Syntax level: proved, `utf8_strict_imp_lenient` / `utf8_only_diff`; one literal:
+C11 `unquote_fffd_count_mixed`.  Missing: an unmarshal model over BYTES with the option.) -/
 def utf8_only_diff_full : Prop :=
   ∀ t b, unmText false true t b = unmText false false t (sanitize b)
 
